@@ -215,3 +215,53 @@ Example unput_example :
   let b := {| u_mem := [120; 97; 98; 0; 0; 7; 7]%N; u_size := 5; u_nch := 3; u_cp := 1 |} in
   UInv b /\ option_map u_unread (unputs b [49; 50]%N) = Some [50; 49; 97; 98]%N /\ unputs b [49; 50; 51]%N = None.
 Proof. cbv zeta. split; [unfold UInv; cbn; repeat split; lia|]. split; vm_compute; reflexivity. Qed.
+
+(** ** in-memory buffers: yy_scan_bytes copies the bytes and appends the two end-of-buffer bytes;
+    yy_scan_buffer accepts a caller's array only if it ends with them *)
+Definition scan_bytes (data : list byte) : ub :=
+  {| u_mem := data ++ [EOB; EOB]; u_size := length data; u_nch := length data; u_cp := 0 |}.
+
+Definition scan_buffer (mem : list byte) : option ub :=
+  let n := length mem in
+  if n <? 2 then None
+  else if N.eqb (nth (n - 2) mem 1%N) EOB && N.eqb (nth (n - 1) mem 1%N) EOB
+       then Some {| u_mem := mem; u_size := n - 2; u_nch := n - 2; u_cp := 0 |}
+       else None.
+
+Theorem scan_bytes_inv data : UInv (scan_bytes data) /\ u_unread (scan_bytes data) = data.
+Proof.
+  unfold UInv, u_unread, scan_bytes. cbn [u_mem u_size u_nch u_cp]. rewrite app_length. cbn [length].
+  repeat split; try lia.
+  - rewrite app_nth2 by lia. rewrite Nat.sub_diag. reflexivity.
+  - rewrite app_nth2 by lia. replace (S (length data) - length data) with 1 by lia. reflexivity.
+  - rewrite Nat.sub_0_r. cbn [skipn]. rewrite firstn_app, Nat.sub_diag, firstn_all. cbn [firstn]. apply app_nil_r.
+Qed.
+
+Theorem scan_buffer_of_scan_bytes data : scan_buffer (data ++ [EOB; EOB]) = Some (scan_bytes data).
+Proof.
+  unfold scan_buffer. rewrite app_length. cbn [length].
+  destruct (length data + 2 <? 2) eqn:E; [apply Nat.ltb_lt in E; lia|].
+  replace (length data + 2 - 2) with (length data) by lia. replace (length data + 2 - 1) with (S (length data)) by lia.
+  rewrite app_nth2 by lia. rewrite Nat.sub_diag. cbn [nth].
+  rewrite app_nth2 by lia. replace (S (length data) - length data) with 1 by lia. cbn [nth]. reflexivity.
+Qed.
+
+(** an array that does not end in two end-of-buffer bytes is refused *)
+Theorem scan_buffer_refuses mem b : scan_buffer mem = Some b ->
+  2 <= length mem /\ nth (length mem - 2) mem 1%N = EOB /\ nth (length mem - 1) mem 1%N = EOB /\ UInv b.
+Proof.
+  unfold scan_buffer. destruct (length mem <? 2) eqn:E; [discriminate|]. apply Nat.ltb_ge in E.
+  destruct (N.eqb (nth (length mem - 2) mem 1%N) EOB) eqn:E1; [|discriminate].
+  destruct (N.eqb (nth (length mem - 1) mem 1%N) EOB) eqn:E2; [|discriminate].
+  apply N.eqb_eq in E1. apply N.eqb_eq in E2. cbn [andb]. intros H. inversion H; subst b.
+  split; [exact E|]. split; [exact E1|]. split; [exact E2|].
+  unfold UInv. cbn [u_mem u_size u_nch u_cp].
+  split; [lia|]. split; [lia|]. split; [lia|]. split; [exact E1|].
+  replace (S (length mem - 2)) with (length mem - 1) by lia. exact E2.
+Qed.
+
+(** right after yy_scan_bytes / yy_scan_string the buffer is full: the first yyunput already overflows *)
+Theorem unput_after_scan_bytes_overflows data c : unput (scan_bytes data) c = None.
+Proof.
+  apply unput_overflow_iff; [apply scan_bytes_inv|]. unfold scan_bytes. cbn [u_size u_cp u_nch]. lia.
+Qed.
